@@ -3,6 +3,7 @@ package props
 import (
 	"fmt"
 	"os"
+	"path/filepath"
 	"regexp"
 	"sort"
 	"strings"
@@ -17,7 +18,7 @@ var archRow = regexp.MustCompile("^\\|\\s*`([^`]+)`\\s*\\|\\s*`([^`]+)`\\s*\\|")
 
 // loadArchTable parses www/docs/goarch-to-pkg.md from the working tree.
 func loadArchTable() (map[string]map[string]string, error) {
-	b, err := os.ReadFile("/repo/www/docs/goarch-to-pkg.md")
+	b, err := os.ReadFile(filepath.Join(repoDir(), "www/docs/goarch-to-pkg.md"))
 	if err != nil {
 		return nil, err
 	}
